@@ -1,1 +1,46 @@
-From VP Require Import Base.Tactics RateLimit.Model RateLimit.Props.
+From VP Require Import Base.Tactics RateLimit.Model RateLimit.Proofs RateLimit.Props.
+Open Scope Z_scope.
+
+Check (C30_bound : forall cfg pre mid ip es_pre st1 es_mid st2 a T,
+  c_enabled cfg = true -> 0 <= c_rate cfg -> 0 <= c_burst cfg ->
+  trace cfg [] pre = (es_pre, st1) ->
+  trace cfg st1 mid = (es_mid, st2) ->
+  nondecr (map op_time mid) ->
+  0 <= T -> (forall o, In o mid -> a <= op_time o <= a + T) ->
+  (forall e, In e es_mid -> e_evicted e <> Some ip) ->
+  count_admitted ip es_mid * NANO <= c_burst cfg * NANO + c_rate cfg * T).
+Print Assumptions C30_bound.
+
+Check (C30_retry_finite : forall cfg pre es_pre st now ip ch st' e ns,
+  c_enabled cfg = true -> 0 <= c_rate cfg -> 0 <= c_burst cfg ->
+  trace cfg [] pre = (es_pre, st) ->
+  check cfg st now ip ch = (st', e) -> e_res e = Limited ns ->
+  0 <= ns <= DUR_MAX_NS /\
+  (0 < c_rate cfg -> ns * c_rate cfg <= NANO) /\
+  (c_rate cfg = 0 -> ns = DUR_MAX_NS)).
+Print Assumptions C30_retry_finite.
+
+Check (C30_retry_sufficient : forall cfg pre es_pre st now ip ch st' e ns now' ch' st'' e',
+  c_enabled cfg = true -> 0 < c_rate cfg -> 1 <= c_burst cfg ->
+  trace cfg [] pre = (es_pre, st) ->
+  check cfg st now ip ch = (st', e) -> e_res e = Limited ns ->
+  now + ns + 1 <= now' ->
+  check cfg st' now' ip ch' = (st'', e') ->
+  is_allowed (e_res e') = true).
+Print Assumptions C30_retry_sufficient.
+
+Check (C30_no_panic : forall cfg st ops,
+  exists es st', trace cfg st ops = (es, st') /\ length es = length ops).
+Print Assumptions C30_no_panic.
+
+Check (C30_repair_conservative : forall cfg b d,
+  reset_after_unrepaired cfg b = Ok d -> reset_after cfg b = d).
+Print Assumptions C30_repair_conservative.
+
+Check (C30_unrepaired_panicked : forall cfg b,
+  c_rate cfg = 0 -> b_nt b < NANO -> reset_after_unrepaired cfg b = Panic).
+Print Assumptions C30_unrepaired_panicked.
+
+Check (C30_evicts_oldest : forall st ch v, victim st ch = Some v ->
+  exists b, In (v, b) st /\ forall k b', In (k, b') st -> b_last b <= b_last b').
+Print Assumptions C30_evicts_oldest.
